@@ -708,6 +708,16 @@ func (s *Sim) cprog(r *CallRec, st grpc.ClientStream, prog []Op, suffix string) 
 			time.Sleep(op.D)
 		case 'y':
 			e.Pt("c.yield")
+		case 'u':
+			// a SendMsg that fails in the codec (the value is not a protobuf message):
+			// by the grpc.ClientStream contract a failed SendMsg aborts the stream,
+			// so the caller may walk away without cancelling
+			e.Pt("c.send-unmarshalable")
+			err := st.SendMsg(struct{ NotAMessage chan int }{})
+			histMu.Lock()
+			r.CSendErr = append(r.CSendErr, err)
+			histMu.Unlock()
+			r.CancelEv = e.Log("c.send-unmarshalable", "", id, errStr(err))
 		case 'b':
 			// a caller slow to start receiving: wait until the handler has sent its burst
 			e.Pt("c.burstwait")
